@@ -2,7 +2,10 @@
 
 Model: lean/Ladybug/Model/Sky.lean (generic numeric interface; Float instance run by drv_c10);
 theorems: lean/Ladybug/Props/C10.lean (real instance); tables: Gen/SkyTables (translator).
-Tie: translator (constant tables + pinned formula literals) + correspondence on the ops below.
+Tie: translator (Gen/SkyFormulas: every formula / branch test / per-step expression of skymodel.py, wea.py,
+designday.py translated statement by statement, proved equal to the model in Proofs/C10Gen, C10_gen_eq_*;
+Gen/SkyTables: constant tables, signature defaults) + correspondence on the ops below (which also covers the
+hand-modelled glue: loops, None, string dispatch, table look-ups, Vector3D.angle).
 Numeric property, partial by nature: closeness of different approximations (air-mass models,
 extraterrestrial range, finiteness, DIRINT / illuminance sign) are SAMPLED sub-claims evaluated on
 the real code (ctx.subclaim), never counted as theorems.
@@ -14,8 +17,8 @@ from harness import core
 from harness.core import err_name, run_oracle_cases
 
 PROP = 'C10'
-PROOF_MODULES = ['Ladybug.Props.C10']
-GREP_MODULES = ['Ladybug.Transc', 'Ladybug.RealInst', 'Ladybug.Model.Sky', 'Ladybug.Gen.SkyTables',
+PROOF_MODULES = ['Ladybug.Props.C10', 'Ladybug.Proofs.C10Gen']
+GREP_MODULES = ['Ladybug.Transc', 'Ladybug.RealInst', 'Ladybug.Model.Sky', 'Ladybug.Gen.SkyTables', 'Ladybug.Gen.SkyFormulas',
                 'Ladybug.Proofs.C10Lemmas', 'Ladybug.Proofs.C10Dirint', 'Ladybug.Proofs.C10Pinned',
                 'Ladybug.Drv.C10', 'Ladybug.DrvCore', 'Ladybug.Py']
 RULE = ('correspondence: every skymodel.py function and the per-timestep Wea / design-day formulas on '
@@ -30,9 +33,13 @@ RULE = ('correspondence: every skymodel.py function and the per-timestep Wea / d
         'the statement on the real code (comparisons of floats with 1e-12 relative slack for round-off '
         'only).')
 TRUSTED_BASE = [
+    'translator tools/extract/sky_formulas.py + pyexpr2lean.py: that the emitted Lean definition denotes the Python '
+    'statements it was made from (straight-line numeric code; each definition is also executed through the model '
+    'it is proved equal to and compared with the real function)',
     'translator tools/extract/sky_tables.py: copies MONTHLY_A/B, the Zhang-Huang constants, the Perez '
-    'luminous-efficacy tables, the 6x6x7x5 DIRINT matrix and lists the numeric literals of every formula '
-    'function (pinned by theorem C10_constants_pinned)',
+    'luminous-efficacy tables, the 6x6x7x5 DIRINT matrix, signature defaults and air-mass model names',
+    'hand-modelled glue around the generated pieces (loops, try/except OverflowError, None, model.lower(), '
+    '`dhi == 0` / `== -1`, table look-ups, raised errors, Vector3D.angle): correspondence only',
     'IEEE-754 / libm evaluation vs the real-number semantics of the theorems is not proved; Float model and '
     'Python agree within 1e-12 relative on the generated inputs',
     'sun positions (Sunpath, property C05) and dew points (psychrometrics, property C09) are inputs of the '
@@ -51,8 +58,12 @@ ATOL = 1e-9
 
 
 def extract(ctx):
-    from tools.extract import sky_tables
+    from tools.extract import sky_tables, sky_formulas
     ctx.tables = sky_tables.extract()
+    ctx.formulas = sky_formulas.extract()
+    ctx.notes.append('translated from source this run: %d definitions (%s ...); hand-modelled glue: %s'
+                     % (len(ctx.formulas['translated']), ', '.join(ctx.formulas['translated'][:6]),
+                        ' | '.join(ctx.formulas['hand_modelled'])))
 
 
 # ---------------------------------------------------------------------------------------------
